@@ -1,7 +1,7 @@
 """C15 write failures during create are reported: generator (library-level histories and bare BufWriter runs under a
 moving RLIMIT_FSIZE), python oracle (container semantics re-stated), CLI-level fault enumeration (extra_checks), search."""
 import concurrent.futures as cf
-import os, random, shutil, subprocess, time
+import os, random, re, shutil, subprocess, time
 
 PROP = "C15"
 AREAS = ["sink", "archive"]
@@ -45,8 +45,26 @@ ASSUMPTIONS = ["a write call that returns Ok has stored all its bytes (no model 
                "failures of File::create / of the workers before finalize are outside this model (they return Err through `?` "
                "before any part is written; the Archive's Drop then writes a footer-only file and the exit status is non-zero)"]
 M64 = (1 << 64) - 1
-CAP = 4 * 1024 * 1024
 _STATE = {}
+
+
+_cap = []
+
+
+def cap():
+    """the capacity archive.rs gives its BufWriter, as the translator read it (coq/gen/Consts_sink.v); looked up when first
+    used, i.e. after bin/check regenerated the constants"""
+    if not _cap:
+        v = 4 * 1024 * 1024
+        try:
+            txt = open(os.path.join(os.path.dirname(os.path.dirname(os.path.abspath(__file__))), "coq/gen/Consts_sink.v")).read()
+            m = re.search(r"Definition ar_bufwriter_cap : N := (\d+)\.", txt)
+            if m:
+                v = int(m.group(1))
+        except OSError:
+            pass
+        _cap.append(v)
+    return _cap[0]
 
 
 def hx(b):
@@ -232,10 +250,10 @@ def big_hist(rng):
     if shape == 0:      # several MB-sized parts: flush_buf in the middle of add_part
         sizes = [rng.randint(900_000, 1_600_000) for _ in range(rng.randint(3, 5))]
     elif shape == 1:    # one part above the capacity: straight to the file
-        sizes = [rng.randint(10, 2000), CAP + rng.randint(0, 3000), rng.randint(10, 2000)]
+        sizes = [rng.randint(10, 2000), cap() + rng.randint(0, 3000), rng.randint(10, 2000)]
     elif shape == 2:    # fill the buffer exactly (metadata 1 byte for meta 0): spare == len boundary
         a = rng.randint(1000, 100000)
-        sizes = [a, CAP - a - 2 - rng.choice([0, 1, 2]), rng.randint(1, 50)]
+        sizes = [a, cap() - a - 2 - rng.choice([0, 1, 2]), rng.randint(1, 50)]
     else:
         sizes = [rng.randint(1_000_000, 2_200_000), rng.randint(1_900_000, 2_300_000), rng.randint(1, 300_000)]
     for i, n in enumerate(sizes):
@@ -244,12 +262,12 @@ def big_hist(rng):
     ops.append("f")
     _, size = py_history(ops, want_bytes=False)
     total = sum(sizes)
-    lim = rng.choice([size, size - 1, size - 8, size - 9, CAP, CAP - 1, CAP + 1, rng.randint(0, size), rng.randint(0, size),
+    lim = rng.choice([size, size - 1, size - 8, size - 9, cap(), cap() - 1, cap() + 1, rng.randint(0, size), rng.randint(0, size),
                       total, sizes[0], sizes[0] + 1, 0])
     pol = "inf" if rng.random() < 0.15 else "L1:%x" % max(0, lim)
     if rng.random() < 0.3:
         ops = with_moving_limits(rng, ops, size)
-    return "hist %x %s %s" % (CAP, pol, " ".join(ops))
+    return "hist %x %s %s" % (cap(), pol, " ".join(ops))
 
 
 def gen_bw_exhaustive():
@@ -306,21 +324,21 @@ def gen_cases(rng, tier):
         ops = gen_ops(rng, pipeline=(i % 3 != 0))
         _, size = py_history(ops, want_bytes=False)
         for lim in range(0, size + 3):
-            cs.append("hist %x L1:%x %s" % (CAP, lim, " ".join(ops)))
-        cs.append("hist %x inf %s" % (CAP, " ".join(ops)))
+            cs.append("hist %x L1:%x %s" % (cap(), lim, " ".join(ops)))
+        cs.append("hist %x inf %s" % (cap(), " ".join(ops)))
         for _ in range(6 if quick else 20):
-            cs.append("hist %x %s %s" % (CAP, rng.choice(["inf", "L1:%x" % rng.randint(0, size + 2)]),
+            cs.append("hist %x %s %s" % (cap(), rng.choice(["inf", "L1:%x" % rng.randint(0, size + 2)]),
                                          " ".join(with_moving_limits(rng, ops, size))))
     for _ in range(6 if quick else 80):
         cs.append(big_hist(rng))
     cs += [
-        "hist %x inf r:61 b:0:0102:7 f" % CAP,
-        "hist %x L1:0 r:61 b:0:0102:7 f" % CAP,
-        "hist %x L1:15 r:61 b:0:0102:7 f" % CAP,
-        "hist %x L1:16 r:61 b:0:0102:7 f" % CAP,
-        "hist %x L1:5 r:61 b:0:0102:7 f l:inf" % CAP,                 # the limit is lifted before close: nothing was lost
-        "hist %x L1:3 r:61 a:0:0102:7 l:inf" % CAP,                   # a buffered failure surfaces at close only if it persists
-        "hist %x L1:5 r:61 b:0:0102:7" % CAP,                         # not flushed: dropped by close (C13), footer only
+        "hist %x inf r:61 b:0:0102:7 f" % cap(),
+        "hist %x L1:0 r:61 b:0:0102:7 f" % cap(),
+        "hist %x L1:15 r:61 b:0:0102:7 f" % cap(),
+        "hist %x L1:16 r:61 b:0:0102:7 f" % cap(),
+        "hist %x L1:5 r:61 b:0:0102:7 f l:inf" % cap(),                 # the limit is lifted before close: nothing was lost
+        "hist %x L1:3 r:61 a:0:0102:7 l:inf" % cap(),                   # a buffered failure surfaces at close only if it persists
+        "hist %x L1:5 r:61 b:0:0102:7" % cap(),                         # not flushed: dropped by close (C13), footer only
     ]
     return cs
 
@@ -497,8 +515,8 @@ def limit_order(rng, size, fs, starts, big):
     for s in starts[:40]:
         first += [s, s + 1]
     if big:
-        first += [CAP - 1, CAP, CAP + 1, CAP + 4096, 2 * CAP, fs - 2, fs + 5, rng.randint(0, fs), rng.randint(0, fs),
-                  rng.randint(CAP, max(CAP, fs)), (fs + size) // 2]
+        first += [cap() - 1, cap(), cap() + 1, cap() + 4096, 2 * cap(), fs - 2, fs + 5, rng.randint(0, fs), rng.randint(0, fs),
+                  rng.randint(cap(), max(cap(), fs)), (fs + size) // 2]
         rest = []
     else:
         foot = list(range(fs, size - 8))
@@ -573,7 +591,7 @@ def cli_faults(ctx, budget_s):
             # model predictions for the same limits
             mcases, chunk = [], 24 if kind != "big" else 4
             for i in range(0, len(limits), chunk):
-                mcases.append("cli %x 1 code %s | %s" % (CAP, " ".join(ops), " ".join("%x" % n for n in limits[i:i + chunk])))
+                mcases.append("cli %x 1 code %s | %s" % (cap(), " ".join(ops), " ".join("%x" % n for n in limits[i:i + chunk])))
             mout = vlib.run_model(PROP, mcases, timeout=3000)
             pred = {}
             for i, line in enumerate(mout):
@@ -672,7 +690,7 @@ def fin_faults(ctx, budget_s):
             full_fnv = fnv(full)
             mcases, chunk = [], (4 if kind == "big" else 24)
             for i in range(0, len(limits), chunk):
-                mcases.append("cli %x 1 code %s | %s" % (CAP, " ".join(ops), " ".join("%x" % n for n in limits[i:i + chunk])))
+                mcases.append("cli %x 1 code %s | %s" % (cap(), " ".join(ops), " ".join("%x" % n for n in limits[i:i + chunk])))
             mout = vlib.run_model(PROP, mcases, timeout=3000)
             pred = {}
             for i, line in enumerate(mout):
@@ -733,7 +751,7 @@ def fin_faults(ctx, budget_s):
 def extra_checks(ctx):
     quick = ctx.tier == "quick"
     fin_budget = float(os.environ.get("VERIF_C15_FIN_BUDGET", 40 if quick else 900))
-    cli_budget = float(os.environ.get("VERIF_C15_CLI_BUDGET", 30 if quick else 900))
+    cli_budget = float(os.environ.get("VERIF_C15_CLI_BUDGET", 30 if quick else 600))
     return fin_faults(ctx, fin_budget) + cli_faults(ctx, cli_budget)
 
 
@@ -755,8 +773,8 @@ def search(ctx, budget):
         _, size = py_history(ops, want_bytes=False)
         for lim in sorted(set([0, 1, size - 1, size - 8, size - 9] + [rng.randint(0, size) for _ in range(6)])):
             if lim >= 0:
-                cases.append("hist %x L1:%x %s" % (CAP, lim, " ".join(ops)))
-        cases.append("hist %x L1:%x %s" % (CAP, rng.randint(0, size), " ".join(with_moving_limits(rng, ops, size))))
+                cases.append("hist %x L1:%x %s" % (cap(), lim, " ".join(ops)))
+        cases.append("hist %x L1:%x %s" % (cap(), rng.randint(0, size), " ".join(with_moving_limits(rng, ops, size))))
     res = vlib.run_impl(PROP, cases)
     found = [(c, i, oracle(c, i)) for c, i in zip(cases, res) if oracle(c, i)]
     if not found:
